@@ -1098,7 +1098,10 @@ def _h_spark(ctx, r, rng):
     for k in range(1, min(m, n) + 1):
         for cols in itertools.combinations(range(n), k):
             sv = np.linalg.svd(a[:, cols], compute_uv=False)
-            if 1e-10 * sv.max() <= sv.min() < 1e-8 * sv.max():
+            # decided only when the smallest singular value is clearly below the library's rank threshold max(shape) * eps * sigma_max (a quarter of
+            # it: exact planted dependencies give about 1e-17 .. 1e-16) or clearly above it (1e-8); a near-dependent triple whose perturbation
+            # happens to lie almost inside the span lands in between (relative 1e-10 .. 1e-15, met twice in 1.8e6 thorough cases) and is not decided
+            if 0.25 * max(m, k) * np.finfo(float).eps * sv.max() <= sv.min() < 1e-8 * sv.max():
                 ok = False
     if not ok:
         return ctx.note_inconclusive("spark-margin")
